@@ -2,7 +2,7 @@
    oracle of C02.  Everything the OCaml runner of this property executes goes
    through run_case. *)
 From Coq Require Import ZArith List String.
-From ST Require Import Base.Ints Base.Value Base.Sorting Model.NtpTime Model.Ftm Extract.GlueBase.
+From ST Require Import Base.Ints Base.Value Base.Sorting Model.NtpTime Model.Ftm Model.FtmMeas Extract.GlueBase.
 Import ListNotations.
 Open Scope string_scope.
 Open Scope Z_scope.
@@ -14,34 +14,46 @@ Fixpoint zip_tags (vs : list Z) (ts : list Z) : list (Z * bool) :=
   | v :: vs', [] => (v, true) :: zip_tags vs' []
   | [], _ => []
   end.
-Definition meas_of_value (v : value) : option meas :=
+(* a measurement crosses the boundary as [sec nsec off err]: sec = seconds since January 1, year 1
+   (time.Time's ext field, any int64), nsec = Time.Nanosecond(), off = Offset in ns, err = (Error != nil) *)
+Definition meas_of_value (v : value) : option tmeas :=
   match v with
-  | VL [VZ ts; VZ off; VZ e] => Some {| m_ts := ts; m_off := off; m_err := negb (e =? 0) |}
+  | VL [VZ sec; VZ nsec; VZ off; VZ e] =>
+      let t := {| gt_sec := sec; gt_nsec := nsec |} in
+      if gt_wfb t && in_i64b off then Some {| tm_ts := t; tm_off := off; tm_err := negb (e =? 0) |} else None
   | _ => None end.
-Fixpoint meas_list (l : list value) : option (list meas) :=
+Fixpoint meas_list (l : list value) : option (list tmeas) :=
   match l with
   | [] => Some []
   | v :: r => match meas_of_value v, meas_list r with Some m, Some ms => Some (m :: ms) | _, _ => None end
   end.
-Definition value_of_meas (m : meas) : list value := [VZ (m_ts m); VZ (m_off m); vbool (m_err m)].
+
+(* kinds come in families: "ftm.dur", "ftm.dur.big", "ftm.meas.far", ... are evaluated alike; the suffix
+   only names the generator (and has its own coverage floor) *)
+Definition fam (k base : string) : bool :=
+  is k base || is k (base ++ ".big") || is k (base ++ ".far") || is k (base ++ ".beyond").
 
 Definition glue_C02 (k : string) (a o : list value) : option verdict :=
-  if is k "ftm.midpoint" then
-    match a with [VZ x; VZ y] => Some (functional [VZ (midpoint x y)] o true) | _ => None end
+  if fam k "ftm.midpoint" then
+    (* oracle (containment below 2^62, nothing claimed beyond) on the observed value; model equality everywhere *)
+    match a, o with
+    | [VZ x; VZ y], [VZ r] => Some (functional [VZ (midpoint x y)] o (C02_mid_ok x y r))
+    | _, _ => None end
   else if is k "ftm.sgninv" then
     match a with [VZ x] => Some (functional [VZ (sgn x); VZ (inv x)] o true) | _ => None end
-  else if is k "ftm.dur" || is k "median.dur" then
+  else if fam k "ftm.dur" || fam k "median.dur" then
     (* args: values, tags (1 = correct); observed: panicked, result, slice afterwards *)
     match a, o with
     | [VL vs; VL ts], [VZ pan; VZ res; VL after] =>
         match getZs vs, getZs ts, getZs after with
         | Some vs, Some ts, Some after =>
-            let r := if is k "ftm.dur" then ftm vs else median vs in
+            let isf := fam k "ftm.dur" in
+            let r := if isf then ftm vs else median vs in
             let oracle :=
               match vs with
               | [] => negb (pan =? 0)
-              | _ => (pan =? 0) && list_eqb Z.eqb after (zsort vs)
-                     && (if is k "ftm.dur" then C02_ftm_ok (zip_tags vs ts) res else C02_median_ok vs res)
+              | _ => (pan =? 0) && C02_reorder_ok vs after
+                     && (if isf then C02_ftm_ok (zip_tags vs ts) res else C02_median_ok vs res)
               end in
             match r with
             | Some x => Some (functional [VZ 0; VZ x; VL (map VZ (zsort vs))] o oracle)
@@ -55,31 +67,31 @@ Definition glue_C02 (k : string) (a o : list value) : option verdict :=
     | [VL l1; VL l2], [VZ f1; VZ m1; VZ f2; VZ m2] =>
         match getZs l1, getZs l2 with
         | Some l1, Some l2 =>
-            match ftm l1, median l1, ftm l2, median l2 with
-            | Some a1, Some b1, Some a2, Some b2 =>
-                Some (functional [VZ a1; VZ b1; VZ a2; VZ b2] o ((f1 =? f2) && (m1 =? m2)))
-            | _, _, _, _ => None end
+            if multiset_eqb Z.eqb l1 l2 then
+              match ftm l1, median l1, ftm l2, median l2 with
+              | Some a1, Some b1, Some a2, Some b2 =>
+                  Some (functional [VZ a1; VZ b1; VZ a2; VZ b2] o ((f1 =? f2) && (m1 =? m2)))
+              | _, _, _, _ => None end
+            else None   (* not a permuted copy: not a case of this kind *)
         | _, _ => None end
     | _, _ => None end
-  else if is k "ftm.meas" || is k "median.meas" then
-    (* args: measurements [ts off err], tags; observed: panicked, result [ts off err], slice afterwards *)
+  else if fam k "ftm.meas" || fam k "median.meas" then
+    (* args: measurements [sec nsec off err], tags; observed: panicked, result [sec nsec off err], slice afterwards *)
     match a, o with
-    | [VL ms; VL ts], [VZ pan; VL [VZ rts; VZ roff; VZ rerr]; VL after] =>
+    | [VL ms; VL ts], [VZ pan; VL [VZ rsec; VZ rnsec; VZ roff; VZ rerr]; VL after] =>
         match meas_list ms, getZs ts, meas_list after with
         | Some ms, Some ts, Some after =>
             match ms with
             | [] => Some (relational (negb (pan =? 0)) (negb (pan =? 0)))
             | _ =>
-                let r := if is k "ftm.meas" then ftm_m_sorted after else median_m_sorted after in
-                let agree := (pan =? 0) && sorted_permb ms after && (rts =? m_ts r) && (roff =? m_off r) && (rerr =? 0) in
-                let n := length after in
-                let '(x, y) := if is k "ftm.meas" then (nth ((n - 1) / 3) after meas_zero, nth (n - 1 - (n - 1) / 3) after meas_zero)
-                               else if Nat.eqb (n mod 2) 0 then (nth (n / 2 - 1) after meas_zero, nth (n / 2) after meas_zero)
-                               else (nth (n / 2) after meas_zero, nth (n / 2) after meas_zero) in
-                let oracle := (pan =? 0) && sorted_permb ms after && (rerr =? 0)
-                              && (Z.min (m_ts x) (m_ts y) <=? rts) && (rts <=? Z.max (m_ts x) (m_ts y))
-                              && (if is k "ftm.meas" then C02_ftm_ok (zip_tags (map m_off ms) ts) roff
-                                  else C02_median_ok (map m_off ms) roff) in
+                let isf := fam k "ftm.meas" in
+                let res := {| tm_ts := {| gt_sec := rsec; gt_nsec := rnsec |}; tm_off := roff; tm_err := negb (rerr =? 0) |} in
+                (* model: any sorted permutation may be left behind; the result is the function of that slice *)
+                let agree := (pan =? 0) && C02_reorder_m_ok ms after
+                             && tm_eqb res (if isf then tftm_sorted after else tmedian_sorted after) in
+                let oracle := (pan =? 0)
+                              && (if isf then C02_meas_ftm_ok (zip_tags (map tm_off ms) ts) ms res after
+                                  else C02_meas_median_ok ms res after) in
                 Some (relational agree oracle)
             end
         | _, _, _ => None end
